@@ -176,6 +176,73 @@ func mkForallPat(bv []BVar, body *Term, pats ...[]*Term) *Term {
 	return t
 }
 
+// sanitizePatterns: instantiation patterns may not contain connectives, ite or (in)equalities. Spec-level patterns
+// such as has(m, k) translate to guarded terms ((m != nil) and select(dom(M[m]), k)), and substituting a call's
+// actual arguments into a contract's patterns can do the same; each pattern is therefore replaced by its maximal
+// sub-terms that are legal and mention a bound variable. A group that no longer covers every bound variable is dropped
+// (the solver then infers patterns itself). Patterns never change the meaning of a formula, only how it is instantiated.
+func sanitizePatterns(q *Term) [][]*Term {
+	if len(q.Pats) == 0 {
+		return nil
+	}
+	var out [][]*Term
+	for _, grp := range q.Pats {
+		var ts []*Term
+		seen := map[int]bool{}
+		var collect func(t *Term)
+		collect = func(t *Term) {
+			if !t.open || seen[t.id] {
+				return
+			}
+			seen[t.id] = true
+			if t.Op == "bvar" {
+				return
+			}
+			if patLegal(t, map[int]bool{}) {
+				ts = append(ts, t)
+				return
+			}
+			for _, a := range t.Args {
+				collect(a)
+			}
+		}
+		for _, t := range grp {
+			collect(t)
+		}
+		cov := map[string]bool{}
+		for _, t := range ts {
+			freeBound(t, cov, map[int]bool{})
+		}
+		ok := len(ts) > 0
+		for _, b := range q.BVars {
+			if !cov[b.Name] {
+				ok = false
+			}
+		}
+		if ok {
+			out = append(out, ts)
+		}
+	}
+	return out
+}
+
+func patLegal(t *Term, seen map[int]bool) bool {
+	if seen[t.id] {
+		return true
+	}
+	seen[t.id] = true
+	switch t.Op {
+	case "ite", "and", "or", "not", "=", "=>", "<=", "<", ">=", ">", "distinct", "forall", "exists", "true", "false":
+		return false
+	}
+	for _, a := range t.Args {
+		if !patLegal(a, seen) {
+			return false
+		}
+	}
+	return true
+}
+
 func freeBound(t *Term, out map[string]bool, seen map[int]bool) {
 	if !t.open || seen[t.id] {
 		return
@@ -904,9 +971,10 @@ func (p *printer) str(t *Term) string {
 		for _, b := range t.BVars {
 			sb.WriteString("(|" + b.Name + "| " + b.Sort.Name + ")")
 		}
-		if len(t.Pats) > 0 {
+		pats := sanitizePatterns(t)
+		if len(pats) > 0 {
 			sb.WriteString(") (! " + p.str(t.Args[0]))
-			for _, pat := range t.Pats {
+			for _, pat := range pats {
 				sb.WriteString(" :pattern (")
 				for i, x := range pat {
 					if i > 0 {
@@ -1134,7 +1202,65 @@ func symbolsOf(t *Term) map[string]bool {
 	return m
 }
 
+// pathFilter: for a goal of the form (=> G body), hypotheses guarded by a condition that G contradicts literally
+// ((=> H x) where a conjunct of H is the negation of a conjunct of G) say nothing on the goal's path and are dropped.
+// Dropping hypotheses is always sound; it keeps the facts of the branches not taken (loop bodies behind an exit
+// condition, for instance) out of the sliced query.
+func pathFilter(hyps []*Term, goal *Term) []*Term {
+	if goal == nil || goal.Op != "=>" {
+		return hyps
+	}
+	pos, neg := map[int]bool{}, map[int]bool{}
+	var lits func(t *Term)
+	lits = func(t *Term) {
+		switch {
+		case t.Op == "and":
+			for _, a := range t.Args {
+				lits(a)
+			}
+		case t.Op == "not":
+			neg[t.Args[0].id] = true
+		default:
+			pos[t.id] = true
+		}
+	}
+	for g := goal; g.Op == "=>"; g = g.Args[1] {
+		lits(g.Args[0])
+	}
+	var dead func(t *Term) bool
+	dead = func(t *Term) bool {
+		switch {
+		case t.Op == "and":
+			for _, a := range t.Args {
+				if dead(a) {
+					return true
+				}
+			}
+			return false
+		case t.Op == "not":
+			return pos[t.Args[0].id]
+		default:
+			return neg[t.id]
+		}
+	}
+	var out []*Term
+	for _, h := range hyps {
+		drop := false
+		for g := h; g.Op == "=>"; g = g.Args[1] {
+			if dead(g.Args[0]) {
+				drop = true
+				break
+			}
+		}
+		if !drop {
+			out = append(out, h)
+		}
+	}
+	return out
+}
+
 func sliceHyps(hyps []*Term, goal *Term) []*Term {
+	hyps = pathFilter(hyps, goal)
 	n := len(hyps)
 	syms := make([]map[string]bool, n)
 	freq := map[string]int{}
